@@ -3,11 +3,14 @@
 
    Reading guide
      jdoc, ser, wf_doc, render, render_top, jequiv, efmt_token, efmt_injective, finite_doubles : Spec/EncJson.v
+     VJson, wf_value / enc_cell / text for a TJson column                                      : Spec/Values.v
+     cell_ok (the cell lemma shared by the row- and stream-level theorems C09 / C01)            : Proofs/CellCommon.v
      print_json, print_json_fuel, read_varlen                                                  : Model/Json.v
      cell_bytes                                                                                : Model/Cell.v
    efmt : Z -> bytes is the oracle strconv.AppendFloat(nil, Float64frombits(bits), 'E', -1, 64). *)
 From GB Require Import Base.Prelude Base.DecText Model.Cell Model.Json Spec.Values Spec.EncJson.
 From GB Require Import Proofs.JsonVarlen Proofs.JsonFaithful Proofs.JsonCell Proofs.JsonInjective.
+From GB Require Import Proofs.CellCommon Proofs.CellAll.
 From Coq Require Import String.
 Open Scope Z_scope.
 
@@ -72,6 +75,16 @@ Theorem C14_json_cell : forall ffmt tz efmt d pre rest lb uns,
 Proof. exact json_cell_all. Qed.
 Print Assumptions C14_json_cell.
 
+(* (6) as a value of a row image (Spec.Values): a TJson lb column holding VJson d is written as lb length bytes
+       followed by ser d (enc_cell) and must be delivered as render_top efmt d (text); wf_value asks for wf_doc d
+       and a serialisation that fits the length bytes.  This is the cell lemma in the form the row-level (C09) and
+       stream-level (C01) theorems consume: value decoder and length rule agree with the encoder and the text. *)
+Theorem C14_json_cell_ok : forall ffmt tz efmt lb uns d,
+  wf_type (TJson lb) = true -> wf_value (TJson lb) uns (VJson d) = true ->
+  cell_ok ffmt tz efmt (print_json efmt) (TJson lb) uns (VJson d).
+Proof. exact json_ok. Qed.
+Print Assumptions C14_json_cell_ok.
+
 (* ---- non-vacuity ---- *)
 Definition ex_efmt (bits : Z) : bytes := str "1E+" ++ digs bits.
 
@@ -93,6 +106,16 @@ Example C14_nonvacuous :
   print_json ex_efmt (ser ex_doc ++ [1; 2; 3]) = Ok (render_top ex_efmt ex_doc) /\
   render_top ex_efmt ex_doc =
   str "JSON_ARRAY(-5,null,JSON_ARRAY(true,70000,'zz',CAST('-01:00:00' AS TIME(6)),JSON_OBJECT('k',7,'',1E+99,'when',CAST('2015-01-15 23:24:25.120000' AS DATETIME(6)),'amount',CAST('-3456789.1234' AS DECIMAL(13,4))),-32768),-1,65535)".
+Proof. repeat split; vm_compute; reflexivity. Qed.
+
+(* the same document as a column value; a document of more than 255 bytes needs more than one length byte *)
+Example C14_value_nonvacuous :
+  wf_value (TJson 2) false (VJson ex_doc) = true /\ wf_value (TJson 1) false (VJson ex_doc) = true /\
+  wf_value (TJson 1) false (VJson (JStr (repeat 97 300))) = false /\ wf_value (TJson 2) false (VJson (JStr (repeat 97 300))) = true /\
+  enc_cell (TJson 2) (VJson ex_doc) = le_enc 2 (len (ser ex_doc)) ++ ser ex_doc /\ len (ser ex_doc) = 172 /\
+  text (fun _ _ => []) (fun _ => 0) ex_efmt (TJson 2) false (VJson ex_doc) = render_top ex_efmt ex_doc /\
+  cell_bytes (fun _ _ => []) (fun _ => 0) (print_json ex_efmt) ([7] ++ enc_cell (TJson 2) (VJson ex_doc) ++ [8; 9]) 1 245 2 false
+    = Ok (Some (render_top ex_efmt ex_doc), 174).
 Proof. repeat split; vm_compute; reflexivity. Qed.
 
 (* the same document in the other formats is a different byte string with the same text *)
